@@ -296,6 +296,7 @@ class SimSemLock:
             w.atomic_depth += 1
             w.atomic_owner = w.cur
             w.excluded["atomic:mgmt_probe"] = w.excluded.get("atomic:mgmt_probe", 0) + 1
+        w.sched_point()        # just acquired: a crash / preemption here happens while holding it
         return True
 
     def release(self):
@@ -311,6 +312,7 @@ class SimSemLock:
         else:
             if k.value >= self.maxvalue:
                 raise ValueError("semaphore or lock released too many times")
+        w.sched_point()        # still holding it: a crash / preemption here leaves the semaphore taken
         k.value += 1
         w.sem_release_log.append((w.steps, k.name, w.cur.tid))
         me = (w.cur.proc.pid, w.cur.name)
